@@ -74,10 +74,26 @@ func c09R2R3(p *core.Prog, r *core.Report) {
 	}
 	writes := 0
 	okDom := seenIf != nil
-	core.Calls(fn, func(c ssa.CallInstruction) {
+	primWrite := func(c ssa.CallInstruction) bool {
 		g := core.CalleeFn(c)
 		cal := core.Callee(c)
-		isWrite := (g != nil && g.Name() == "tarWriteHeader") || (cal != nil && core.IsMethod(cal, "archive/tar", "Writer", "Write")) || (cal != nil && core.IsFunc(cal, "io", "Copy"))
+		return (g != nil && g.Name() == "tarWriteHeader") || (cal != nil && core.IsMethod(cal, "archive/tar", "Writer", "Write")) || (cal != nil && core.IsFunc(cal, "io", "Copy"))
+	}
+	// unexported helpers that write to the archive count as a write where they are called
+	writers := map[*ssa.Function]bool{}
+	for h := range core.Helpers(fn, 2) {
+		if h == fn {
+			continue
+		}
+		core.Calls(h, func(c ssa.CallInstruction) {
+			if primWrite(c) {
+				writers[h] = true
+			}
+		})
+	}
+	core.Calls(fn, func(c ssa.CallInstruction) {
+		g := core.CalleeFn(c)
+		isWrite := primWrite(c) || (g != nil && writers[g])
 		if !isWrite {
 			return
 		}
@@ -86,7 +102,7 @@ func c09R2R3(p *core.Prog, r *core.Report) {
 			okDom = false
 		}
 	})
-	r.Check(okDom && writes >= 3, rule2, name, "already-written test dominates every write", p.Pos(fn.Pos()), "a digest shared by several manifests is written to the archive once; the hit edge reaches no write")
+	r.Check(okDom && writes >= 1, rule2, name, "already-written test dominates every write", p.Pos(fn.Pos()), "a digest shared by several manifests is written to the archive once; the hit edge reaches no write")
 	// header writer refuses duplicates
 	hw := p.Method(".", "tarWriteData", "tarWriteHeader")
 	if hw == nil {
@@ -110,7 +126,7 @@ func c09R2R3(p *core.Prog, r *core.Report) {
 	nameOK := false
 	core.Calls(fn, func(c ssa.CallInstruction) {
 		if cal := core.Callee(c); cal != nil && core.IsModFunc(cal, ".", "tarOCILayoutDescPath") {
-			for _, o := range core.Origins(c.Common().Args[0], core.SliceOpts{}) {
+			for _, o := range core.Origins(c.Common().Args[0], core.SliceOpts{FieldsThrough: true}) {
 				if o.Kind == core.OParam && o.Param == descParam {
 					nameOK = true
 				}
@@ -214,22 +230,74 @@ func c09R4(p *core.Prog, r *core.Report) {
 	// (b) push iterates from the last index down
 	rev := false
 	for _, l := range core.Loops(push) {
-		// loop with a phi decremented by one and compared >= 0
-		for _, b := range push.Blocks {
-			if !l.Blocks[b] {
-				continue
-			}
-			for _, in := range b.Instrs {
-				bo, ok := in.(*ssa.BinOp)
-				if ok && bo.Op == token.SUB {
-					if k, isK := core.ConstInt(bo.Y); isK && k == 1 {
-						if _, isPhi := bo.X.(*ssa.Phi); isPhi {
-							rev = true
+		// the index of the element that is called in the loop decreases from one iteration to the next:
+		// a loop variable stepped by -1, or (invariant - ascending loop variable)
+		var stepOf func(v ssa.Value) int
+		stepOf = func(v ssa.Value) int {
+			// the rotated form of range loops: the value used is phi+1, which is also the back-edge value
+			if bo, ok := v.(*ssa.BinOp); ok {
+				if ph, isPhi := bo.X.(*ssa.Phi); isPhi && ph.Block() == l.Header {
+					for i, e := range ph.Edges {
+						if i < len(l.Header.Preds) && l.Blocks[l.Header.Preds[i]] && e == v {
+							return stepOf(ph)
 						}
 					}
 				}
+				return 0
 			}
+			ph, ok := v.(*ssa.Phi)
+			if !ok || ph.Block() != l.Header {
+				return 0
+			}
+			step := 0
+			for i, e := range ph.Edges {
+				if i >= len(l.Header.Preds) || !l.Blocks[l.Header.Preds[i]] {
+					continue // entry edge
+				}
+				bo, ok := e.(*ssa.BinOp)
+				if !ok || bo.X != ssa.Value(ph) {
+					return 0
+				}
+				k, isK := core.ConstInt(bo.Y)
+				if !isK || k != 1 {
+					return 0
+				}
+				switch bo.Op {
+				case token.ADD:
+					step = 1
+				case token.SUB:
+					step = -1
+				default:
+					return 0
+				}
+			}
+			return step
 		}
+		decreasing := func(idx ssa.Value) bool {
+			if stepOf(idx) == -1 {
+				return true
+			}
+			if bo, ok := idx.(*ssa.BinOp); ok && bo.Op == token.SUB && stepOf(bo.Y) == 1 {
+				if xi, isInstr := bo.X.(ssa.Instruction); !isInstr || !l.Blocks[xi.Block()] {
+					return true // invariant minus ascending
+				}
+			}
+			return false
+		}
+		l.Instrs(func(in ssa.Instruction) {
+			var idx ssa.Value
+			switch x := in.(type) {
+			case *ssa.IndexAddr:
+				idx = x.Index
+			case *ssa.Index:
+				idx = x.Index
+			default:
+				return
+			}
+			if decreasing(idx) {
+				rev = true
+			}
+		})
 	}
 	r.Check(rev, rule, p.FuncName(push), "finish list run in reverse", p.Pos(push.Pos()), "nested manifests (appended later) are pushed before their parents; the tagged top manifest (appended first) last")
 	// (c) push only on the nil edge of tarReadAll
